@@ -57,6 +57,19 @@ Theorem C06_transpose_swaps_intention_i : forall b t Y,
 Proof. exact intention_i_transpose. Qed.
 Print Assumptions C06_transpose_swaps_intention_i.
 
+(* the base-set forms are swapped as well (same base set, same order of the result) *)
+Theorem C06_transpose_swaps_extension_i_base : forall b t X B,
+  wf t -> nondegenerate t -> in_range (height t) X -> in_range (width t) B ->
+  extension_i b (transpose b t) X (Some B) = intention_i b t X (Some B).
+Proof. exact extension_i_transpose_base. Qed.
+Print Assumptions C06_transpose_swaps_extension_i_base.
+
+Theorem C06_transpose_swaps_intention_i_base : forall b t Y B,
+  wf t -> nondegenerate t -> in_range (width t) Y -> in_range (height t) B ->
+  intention_i b (transpose b t) Y (Some B) = extension_i b t Y (Some B).
+Proof. exact intention_i_transpose_base. Qed.
+Print Assumptions C06_transpose_swaps_intention_i_base.
+
 (* the concepts of the transposed table are the swapped concepts; the order is reversed *)
 Theorem C06_lattice_of_transpose : forall b t,
   wf t -> nondegenerate t ->
